@@ -563,6 +563,28 @@ class Rope:
             return norm(kind, [p.recode(op, 'ascii') for p in self.pieces])
         if enc == 'ascii':
             return self._recode_ascii(op, kind)
+        if enc == 'utf-8':
+            # known content (literals, lazy views on literals) goes through the real codec, run by run (a multi-byte character may span
+            # pieces); numerals / date tokens / hex renderings are ASCII by construction
+            ps = nonempty_pieces(self)
+            conc = lambda p: isinstance(p, (Lit, Fill)) or (isinstance(p, Opq) and getattr(p.src, 'known', None) is not None and not p.chain)
+            asc = lambda p: isinstance(p, (Num, Tok, HexP)) or (isinstance(p, Frag) and isinstance(p.base, (Num, Tok, HexP)))
+            if ps and all(conc(p) or asc(p) for p in ps):
+                out, run = [], []
+
+                def flush():
+                    if run:
+                        v = try_concrete(norm(self.kind, list(run)))
+                        out.append(Lit(v.encode('utf-8') if op == 'e' else v.decode('utf-8')))
+                        del run[:]
+                for p in ps:
+                    if conc(p):
+                        run.append(p)
+                    else:
+                        flush()
+                        out.append(p.recode(op, 'ascii'))
+                flush()
+                return norm(kind, out)
         if enc == 'utf-8' and op == 'd' and isinstance(self.length(), int) and self.length() <= 4 and \
                 all(isinstance(p, Opq) and not p.chain for p in nonempty_pieces(self)):
             # a few arbitrary bytes decoded as UTF-8: pure ASCII decodes to itself; a first non-ASCII byte that cannot start a sequence
@@ -735,6 +757,27 @@ class Rope:
         if hasattr('' if self.kind == 't' else b'', name):
             raise Unsupported('%s.%s on abstract content' % ('str' if self.kind == 't' else 'bytes', name))
         raise AttributeError(name)
+
+    def format(self, *args, **kwargs):
+        """str.format with abstract text in the template: braces in the opaque part make the call fail (one nondeterministic outcome per
+        opaque piece, honoured by the witness); otherwise the rendering of the message is not followed further"""
+        if self.kind != 't':
+            raise AttributeError('format')
+        for p in nonempty_pieces(self):
+            if isinstance(p, Opq):
+                memo = p.src.__dict__.setdefault('braces', [])
+                b = None
+                for lo, hi, chain, b2 in memo:
+                    if chain == p.chain and same_int(lo, p.lo) and same_int(hi, p.hi):
+                        b = b2
+                if b is None:
+                    b = core.cur().fresh_bool('brace_in_%s' % p.src.name)
+                    memo.append((p.lo, p.hi, p.chain, b))
+                if s_and(b, p.length() >= 1):
+                    raise ValueError("Single '}' encountered in format string [abstract]")
+        lits = ''.join(p.v for p in self.pieces if isinstance(p, Lit))
+        lits.format(*args, **kwargs)              # the literal part is a valid template for these arguments, or raises as it would
+        return self
 
     def startswith(self, prefix, *range_):
         if range_:
@@ -1172,7 +1215,7 @@ def _same_piece(p, q):
 def _codepoint_fill(src, n):
     """deterministic position-coded content for an opaque source (printable, codec safe)"""
     # letters, plus the characters whose EBCDIC code differs between cp500 and cp037 (a code-page mix-up shows in the witness)
-    alphabet = 'ABCDEFGHIJKLMNOPQRSTUVWXYZabcdefghijklmnopqrstuvwxyz!^[]|\xe9\n\x1c'
+    alphabet = 'ABCDEFGHIJKLMNOPQRSTUVWXYZabcdefghijklmnopqrstuvwxyz!^[]|\xe9\n\x1c"{},\\%'
     k = sum(ord(c) for c in src.name) % len(alphabet)
     return ''.join(alphabet[(k + 7 * i) % len(alphabet)] for i in range(n))
 
@@ -1243,6 +1286,12 @@ def concretize_source(src, ev):
             p = ev(pos)
             if 0 <= p and p + 4 <= n:
                 data[p:p + 4] = _struct.pack('>I', ev(v))
+        for lo, hi, chain, b in src.__dict__.get('braces', []):
+            if ev(b):
+                a, e = ev(lo), ev(hi)
+                tab = _chain_table('b', chain) if chain else list(range(256))
+                if tab is not None and 0x7d in tab and 0 <= a < e <= n:
+                    data[a] = tab.index(0x7d)
         for pos, chain, v in src.peeks:
             p = ev(pos)
             if 0 <= p < n and not chain:
